@@ -365,3 +365,91 @@ func passesOn(fn *ssa.Function, ins ssa.Instruction) bool {
 	}
 	return false
 }
+
+// ---- R13.8 a freed metadata-download slot is offered to the idle peers ----------------------------
+//
+// Mirror of R10.1(7) for the metadata phase of a magnet download: the number of concurrent
+// metadata downloads is capped (ParallelMetadataDownloads); a peer that arrives while the slots are
+// taken is only asked when startInfoDownloaders runs again. Every operation that frees a slot
+// (closeInfoDownloader) in a live context must therefore be followed, on every path to the end of
+// the handler, by startInfoDownloaders — in the function itself or in each of its callers; the
+// teardown road (stop) is exempt.
+func init() { registerExtra("C13", runR13_8) }
+
+func runR13_8(c *kit.Ctx) {
+	k := newKeyer()
+	closeID := c.FuncObj("torrent", "(*torrent).closeInfoDownloader")
+	startID := c.FuncObj("torrent", "(*torrent).startInfoDownloaders")
+	stop := c.Func("torrent", "(*torrent).stop")
+	teardown := c.Reach([]*ssa.Function{stop}, false, nil)
+	fInfo := c.Field("torrent", "torrent", "info")
+	isStart := func(ins ssa.Instruction) bool {
+		// the slot is re-offered; or the metadata has just been adopted (nothing left to fetch);
+		// or the torrent is being stopped
+		if _, ok := kit.StoresField(ins, fInfo); ok {
+			return true
+		}
+		cc := kit.CallOf(ins)
+		return cc != nil && (kit.CalleeObj(cc) == startID || cc.StaticCallee() == stop)
+	}
+	var discharged func(fn *ssa.Function, after ssa.Instruction, depth int, trail *[]string) bool
+	discharged = func(fn *ssa.Function, after ssa.Instruction, depth int, trail *[]string) bool {
+		pend := c.Pending(fn, func(i ssa.Instruction) bool { return i == after }, isStart)
+		if len(pend.FailingReturns()) == 0 {
+			return true
+		}
+		if depth == 0 {
+			*trail = append(*trail, kit.FuncName(fn))
+			return false
+		}
+		sites := c.StaticCallSites(fn)
+		if len(sites) == 0 {
+			*trail = append(*trail, kit.FuncName(fn)+" (no static caller)")
+			return false
+		}
+		for _, s := range sites {
+			if s == nil {
+				*trail = append(*trail, kit.FuncName(fn)+" (spawned)")
+				return false
+			}
+			caller := s.Parent()
+			for caller.Parent() != nil {
+				caller = caller.Parent()
+			}
+			if caller == stop || (teardown[s.Parent()] && !liveCaller(c, s.Parent(), teardown)) {
+				continue // teardown road
+			}
+			if !discharged(s.Parent(), s, depth-1, trail) {
+				*trail = append(*trail, kit.FuncName(fn))
+				return false
+			}
+		}
+		return true
+	}
+	n := 0
+	for _, s := range sortSites(c.CallSites(closeID)) {
+		if _, isCall := s.Instr.(*ssa.Call); !isCall {
+			continue
+		}
+		if s.Fn == stop || (teardown[s.Fn] && !liveCaller(c, s.Fn, teardown)) {
+			continue
+		}
+		n++
+		var trail []string
+		ok := discharged(s.Fn, s.Instr, 3, &trail)
+		c.Check(ok, "R13.8", k.key(s.Fn, "closeInfoDownloader=>startInfoDownloaders"), posOf(s.Instr),
+			"a freed metadata-download slot is followed by startInfoDownloaders on every live path (here or in every caller)",
+			"a metadata-download slot is freed (closeInfoDownloader) on a live path that ends without startInfoDownloaders ("+strings.Join(trail, " <- ")+"): an idle peer that could serve the metadata is not asked; when the peers holding the slots disconnect, a magnet download stalls although an honest peer is connected")
+	}
+	c.Floor("R13.8", "live closeInfoDownloader sites", n, 2)
+}
+
+// liveCaller: fn is reachable from stop() but also has a static caller outside that road.
+func liveCaller(c *kit.Ctx, fn *ssa.Function, teardown map[*ssa.Function]bool) bool {
+	for _, s := range c.StaticCallSites(fn) {
+		if s == nil || !teardown[s.Parent()] {
+			return true
+		}
+	}
+	return false
+}
